@@ -49,6 +49,7 @@ type sreader struct {
 	Zero    int  // zero-length reads (0, nil) offered
 	Errs    int  // injected errors offered
 	ErrVals int  // how many of readErrValues an injected error may be (<=1: the plain sentinel only)
+	Max     int  // >0: at most this many bytes per Read (a reader that chunks)
 	Plain   bool // informational: handed out without Close (see plainR)
 
 	CloseFaults bool // Close may fail (it still closes)
@@ -87,6 +88,9 @@ func (r *sreader) Read(p []byte) (int, error) {
 	}
 	if len(p) == 0 {
 		return 0, nil
+	}
+	if r.Max > 0 && len(p) > r.Max {
+		p = p[:r.Max]
 	}
 	rem := r.Data[r.Pos:]
 	if r.Lost {
